@@ -8,6 +8,7 @@ import (
 	"path/filepath"
 	"strings"
 	"sync"
+	"syscall"
 	"testing"
 	"time"
 
@@ -243,38 +244,79 @@ func menuG(thorough bool) []op {
 
 var gStarts = []string{"applied", "empty"}
 
-// startG builds a start repository through the API.
+// startG returns a start repository built through the API. The shards of one
+// run share the built repository (built once under a file lock in the run's
+// scratch directory, then copied), because building costs ~8 API operations.
 func startG(t *testing.T, name string) (*gRepo, *mWorld, error) {
-	base := gitback.New(t, false)
-	g, err := openG(base.Dir)
+	own, err := os.MkdirTemp(os.Getenv("VERIF_SCRATCH"), "start-"+name+"-")
 	if err != nil {
 		return nil, nil, err
 	}
+	dir := filepath.Join(own, "r")
+	shared := filepath.Join(filepath.Dir(strings.TrimRight(os.Getenv("VERIF_SCRATCH"), "/")), "c12-start-"+name)
+	if os.Getenv("VERIF_SCRATCH") == "" {
+		shared = filepath.Join(own, "shared")
+	}
+	lock, err := os.OpenFile(shared+".lock", os.O_CREATE|os.O_RDWR, 0o600)
+	if err != nil {
+		return nil, nil, err
+	}
+	defer lock.Close()
+	if err := syscall.Flock(int(lock.Fd()), syscall.LOCK_EX); err != nil {
+		return nil, nil, err
+	}
+	if _, err := os.Stat(shared + ".ready"); err != nil {
+		if err := buildStartG(t, name, shared); err != nil {
+			syscall.Flock(int(lock.Fd()), syscall.LOCK_UN)
+			return nil, nil, err
+		}
+		must(os.WriteFile(shared+".ready", []byte("ok"), 0o600))
+	}
+	syscall.Flock(int(lock.Fd()), syscall.LOCK_UN)
+	if out, err := exec.Command("cp", "-a", shared, dir).CombinedOutput(); err != nil {
+		return nil, nil, fmt.Errorf("cp -a: %v: %s", err, out)
+	}
+	g, err := openG(dir)
+	if err != nil {
+		return nil, nil, err
+	}
+	// deterministic raw objects (fixed identity and time): same ids as at build time
+	return g, buildWorld(g.gb), nil
+}
+
+func buildStartG(t *testing.T, name, into string) error {
+	base := gitback.New(t, false)
+	g, err := openG(base.Dir)
+	if err != nil {
+		return err
+	}
 	w := buildWorld(g.gb)
-	if name == "empty" {
-		return g, w, nil
-	}
-	entry := trustpolicyopts.WithRSLEntry()
-	r := g.repo
-	steps := []func() error{
-		func() error { return r.InitializeRoot(world.Ctx, fileSigner("R0"), false, rootopts.WithRSLEntry()) },
-		func() error { return r.AddTopLevelTargetsKey(world.Ctx, fileSigner("R0"), principal("T0"), false, entry) },
-		func() error { return r.InitializeTargets(world.Ctx, fileSigner("T0"), policy.TargetsRoleName, false, entry) },
-		func() error {
-			return r.AddPrincipalToTargets(world.Ctx, fileSigner("T0"), policy.TargetsRoleName, []tuf.Principal{principal("P0")}, false, entry)
-		},
-		func() error {
-			return r.AddDelegation(world.Ctx, fileSigner("T0"), policy.TargetsRoleName, "protect-main", []string{keys.Get("P0").KeyID}, []string{"git:" + mainRef}, 1, false, entry)
-		},
-		func() error { return r.ApplyPolicy(world.Ctx, "", true, false) },
-		func() error { return world.Record(g.gb, mainRef, w.c0, keys.Get("P0")) },
-	}
-	for i, s := range steps {
-		if err := s(); err != nil {
-			return nil, nil, fmt.Errorf("building lane-G start state %q: step %d: %w", name, i, err)
+	if name != "empty" {
+		entry := trustpolicyopts.WithRSLEntry()
+		r := g.repo
+		steps := []func() error{
+			func() error { return r.InitializeRoot(world.Ctx, fileSigner("R0"), false, rootopts.WithRSLEntry()) },
+			func() error { return r.AddTopLevelTargetsKey(world.Ctx, fileSigner("R0"), principal("T0"), false, entry) },
+			func() error { return r.InitializeTargets(world.Ctx, fileSigner("T0"), policy.TargetsRoleName, false, entry) },
+			func() error {
+				return r.AddPrincipalToTargets(world.Ctx, fileSigner("T0"), policy.TargetsRoleName, []tuf.Principal{principal("P0")}, false, entry)
+			},
+			func() error {
+				return r.AddDelegation(world.Ctx, fileSigner("T0"), policy.TargetsRoleName, "protect-main", []string{keys.Get("P0").KeyID}, []string{"git:" + mainRef}, 1, false, entry)
+			},
+			func() error { return r.ApplyPolicy(world.Ctx, "", true, false) },
+			func() error { return world.Record(g.gb, mainRef, w.c0, keys.Get("P0")) },
+		}
+		for i, s := range steps {
+			if err := s(); err != nil {
+				return fmt.Errorf("building lane-G start state %q: step %d: %w", name, i, err)
+			}
 		}
 	}
-	return g, w, nil
+	if out, err := exec.Command("cp", "-a", base.Dir, into).CombinedOutput(); err != nil {
+		return fmt.Errorf("cp -a: %v: %s", err, out)
+	}
+	return nil
 }
 
 // judgeG = the signer-authorisation clause + the common invariant.
@@ -365,7 +407,7 @@ func searchG(t *testing.T, depth int, thorough bool, item *int, col *evid.Collec
 		tr := &tree{start: start, mine: map[int]bool{}, seen: map[string]bool{}}
 		for i := range ops {
 			*item++
-			if evid.Mine(*item) {
+			if mine(*item) {
 				tr.mine[i] = true
 			}
 		}
